@@ -78,12 +78,7 @@ func reg(key string, f intrinsic)       { intrinsics[key] = f }
 func regI(key string, f ifaceIntrinsic) { ifaceIntrinsics[key] = f }
 func one(v Value) []Value               { return []Value{v} }
 func nilErr() *IfaceVal                 { return &IfaceVal{Sym: IntLit(0)} }
-func (x *Exec) lenOut(t *Term) Value {
-	if x.bv {
-		return Int2BV(t, 64)
-	}
-	return t
-}
+func (x *Exec) lenOut(t *Term) Value { return t }
 
 func (x *Exec) newErr(st *State, name string, eof *Term) *IfaceVal {
 	e := Fresh("e."+name, SInt)
